@@ -8,6 +8,7 @@ import (
 	"math/rand"
 	"net"
 	"testing"
+	"time"
 
 	"github.com/EdgeCast/vflow/ipfix"
 	netflow9 "github.com/EdgeCast/vflow/netflow/v9"
@@ -22,17 +23,21 @@ import (
 
 // C09Plan is one message with its template history.
 type C09Plan struct {
-	Proto       string         `json:"proto"`
-	Exporter    ExporterPlan   `json:"exporter"`
-	Tpls        []Delivery     `json:"tpls"`    // announced earlier (incl. a template over an element missing from the model)
-	Msg         Delivery       `json:"msg"`     // the well-formed message M
-	Inserts     []C09Insert    `json:"inserts"` // undecodable sets to insert
-	AllOffsets  bool           `json:"all_offsets"`
-	Offsets     []int          `json:"offsets"`
-	ExtElements bool           `json:"ext_elements"`
+	Proto       string       `json:"proto"`
+	Exporter    ExporterPlan `json:"exporter"`
+	Tpls        []Delivery   `json:"tpls"`    // announced earlier (incl. a template over an element missing from the model)
+	Msg         Delivery     `json:"msg"`     // the well-formed message M
+	Inserts     []C09Insert  `json:"inserts"` // undecodable sets to insert
+	AllOffsets  bool         `json:"all_offsets"`
+	Offsets     []int        `json:"offsets"`
+	ExtElements bool         `json:"ext_elements"`
 	// Multi > 0: one more message carries Multi undecodable sets at once (the
 	// position-independent ones of Inserts in turn)
 	Multi int `json:"multi,omitempty"`
+	// StallProb > 0: the decoding task is descheduled now and then (per 10000
+	// scheduling points, for up to 200 ms of simulated time) - also in the
+	// middle of a message, at the cache's locks
+	StallProb int `json:"stall_prob,omitempty"`
 }
 
 // C09Insert places an undecodable set before set index Pos of M.
@@ -124,7 +129,8 @@ func runC09(p *C09Plan, ch *simrt.Choices) *c09Run {
 	M := all[len(all)-1].payload
 	res.Len = len(M)
 	done := false
-	sim.GoNamed("c09", true, func() {
+	sim.StallProb, sim.StallMax = p.StallProb, 200*time.Millisecond
+	sim.GoNamed("c09", p.StallProb == 0, func() {
 		defer func() { done = true }()
 		defer func() {
 			if r := recover(); r != nil {
@@ -404,6 +410,9 @@ func genC09Plan(seed int64, tier string) *C09Plan {
 			}
 		}
 		p.Inserts = append(p.Inserts, C09Insert{Pos: r.Intn(8), Set: s})
+	}
+	if r.Intn(3) == 0 {
+		p.StallProb = []int{100, 1000, 3000}[r.Intn(3)]
 	}
 	if r.Intn(2) == 0 {
 		p.Multi = []int{2, 3, 5, 9, 15, 16, 17, 31, 33, 64, 100, 250}[r.Intn(12)]
